@@ -272,7 +272,13 @@ func (w *world) goSideNil() {
 	}
 	try("Validate(nil)", func() error { return keyset.Validate(nil) })
 	try("NewHandleWithNoSecrets(nil)", func() error { _, err := keyset.NewHandleWithNoSecrets(nil); return err })
-	try("Read(MemReaderWriter{nil})", func() error { _, err, p := kslib.ReadMem(nil); if p != "" { panic(p) }; return err })
+	try("Read(MemReaderWriter{nil})", func() error {
+		_, err, p := kslib.ReadMem(nil)
+		if p != "" {
+			panic(p)
+		}
+		return err
+	})
 	try("ReadWithNoSecrets(MemReaderWriter{nil})", func() error { _, err := keyset.ReadWithNoSecrets(&keyset.MemReaderWriter{}); return err })
 	try("keyset.Read(MemReaderWriter{nil}, aead)", func() error { _, err := keyset.Read(&keyset.MemReaderWriter{}, w.master); return err })
 	try("keyset.Read(reader, nil aead)", func() error {
